@@ -1,7 +1,6 @@
-/- Persian arithmetic (2820-year cycle as the code computes it, including the years below 475) and the
-   astronomical table: density fact, then `WF`.  For the astronomical bitmap the kernel evaluation of the 9379-step
-   pass over the 1173-byte literal does not finish in reasonable memory, so `WF` is stated under the density
-   hypothesis, which the check evaluates on the compiled driver (`cal.dens 8`) and reports as evaluation. -/
+/- Persian arithmetic (2820-year cycle as the code computes it, including the years below 475): density fact checked
+   in the kernel, then `WF`.  (The astronomical table has no symbolic instance: its `WF` is discharged by
+   `wfCheck_sound` + evaluation of `wfCheck` on the compiled driver, see C01WfCheck.lean.) -/
 import PyodaProofs.C01Persian
 
 namespace Pyoda.C01
@@ -11,11 +10,5 @@ theorem dens_arithmetic : Dens Pers.leapArithmetic := by unfold Dens Pers.densOk
 
 theorem persianArithmetic_wf : WF Pers.arithmetic :=
   persian_wf Pers.leapArithmetic (-492267) dens_arithmetic (by decide)
-
-/-- full statement for the astronomical calendar -/
-def persianAstronomicalWfStatement : Prop := WF Pers.astronomical
-
-theorem persianAstronomical_wf_partial (hd : Dens Pers.leapAstronomical) : WF Pers.astronomical :=
-  persian_wf Pers.leapAstronomical (-492267) hd (by decide)
 
 end Pyoda.C01
